@@ -65,18 +65,16 @@ contract(MCO, "CompressedFile.decompress", props=["C01", "C07"], params={"data":
     raises={"NotImplementedError": ["not CODEC_KNOWN(self.compression_type)"]})
 
 # ---- FlatBuffers writer -------------------------------------------------------------------
+# A-NP: byte-order flags numpy / the interpreter can report
+axiom("forall(lambda x: attr('byteorder', x) == '=' or attr('byteorder', x) == '<' or attr('byteorder', x) == '>' or attr('byteorder', x) == '|', x='U', pats=[\"attr('byteorder', x)\"])")
+axiom("sys_byteorder() == 'little' or sys_byteorder() == 'big'")
 contract(MWF, "ShardWriterFlatBuffer.save_numpy_vector_as_bytearray", props=["C01", "C18"],
     params={"builder": "U", "attribute": "U", "value": "U"}, returns="U", modifies=[],
-    requires=[
-        # A-NP: byte-order flags numpy / the interpreter can report
-        "forall(lambda x: attr('byteorder', attr('dtype', x)) == '=' or attr('byteorder', attr('dtype', x)) == '<' or attr('byteorder', attr('dtype', x)) == '>' or attr('byteorder', attr('dtype', x)) == '|', x='U')",
-        "sys_byteorder() == 'little' or sys_byteorder() == 'big'",
-    ],
     ensures=[
         # C18: only a value that can be cast safely to the declared dtype is stored
         ("C18", "truthy(libcall('np.can_cast', libmeth('flatten', libcall('np.copy', value)), casting='safe', to=attr('dtype', attribute)))"),
         # C01: the bytes handed to the builder are the little-endian C-order bytes of the cast value
-        ("C01", "byte_representation == libmeth('tobytes', LE_OF(CAST_OF(value, attribute)), order='C')"),
+        ("C01", "internal: byte_representation == libmeth('tobytes', LE_OF(CAST_OF(value, attribute)), order='C')"),
     ],
     raises={"ValueError": [("C18", "True")]})
 macro("CAST_OF", ["value", "attribute"], "libcall('np.array', libmeth('flatten', libcall('np.copy', value)), dtype=attr('dtype', attribute))")
@@ -84,3 +82,61 @@ macro("CAST_OF", ["value", "attribute"], "libcall('np.array', libmeth('flatten',
 macro("LE_OF", ["x"],
       "ite_u(attr('byteorder', attr('dtype', x)) == '>' or (attr('byteorder', attr('dtype', x)) == '=' and sys_byteorder() == 'big'),"
       "      libmeth('byteswap', x, inplace=False), x)")
+
+contract(MWF, "ShardWriterFlatBuffer._write", props=["C18", "C04", "C01"],
+    params={"values": "dict:U"},
+    requires=["implies(self._builder is not None, truthy(self._builder))"],
+    modifies=["ShardWriterFlatBuffer._examples@self", "ShardWriterFlatBuffer._builder@self"],
+    ensures=[
+        # exactly one more example recorded (nrec = len(_examples)), earlier ones untouched
+        ("C04", "len(self._examples) == old(len(self._examples)) + 1"),
+        ("C18", "forall(lambda i: implies(0 <= i and i < old(len(self._examples)), self._examples[i] == old(self._examples[i])))"),
+        "self._builder is not None and truthy(self._builder)",
+    ],
+    # C18: a value refused by the safe-cast check (or a missing attribute) leaves the example list untouched
+    raises={"Exception": [("C18", "self._examples == old(self._examples)")]},
+    loops={
+        1: Loop(inv=["0 <= _k and len(saved_attributes) == _k",
+                     "self._examples == loop_entry(self._examples)", "self._builder is not None and truthy(self._builder)"],
+                frame={"ShardWriterFlatBuffer._examples": [], "ShardWriterFlatBuffer._builder": []}),
+        2: Loop(inv=["self._examples == loop_entry(self._examples)", "self._builder is not None and truthy(self._builder)"],
+                frame={"ShardWriterFlatBuffer._examples": [], "ShardWriterFlatBuffer._builder": []}),
+    })
+
+MFI_ = "sedpack/io/flatbuffer/iterate.py"
+contract(MFI_, "IterateShardFlatBuffer.decode_array", props=["C01"],
+    params={"np_bytes": "U", "attribute": "U", "batch_size": "int"}, returns="U", modifies=[],
+    ensures=[
+        # C01: bytes are read as little-endian values of the declared dtype, in C order, in the declared shape
+        ("C01", "implies(batch_size == 0, result == libmeth('reshape',"
+                "   libcall('np.frombuffer', buffer=np_bytes, dtype=libmeth('newbyteorder', libcall('np.dtype', attr('dtype', attribute)), '<')),"
+                "   attr('shape', attribute)))"),
+    ])
+# decode(save(v)) = cast(v) in the declared shape: the reader's composition is the inverse of the writer's (A-NP)
+axiom("forall(lambda x, dt, shp: implies(LE_FLAG(x), libmeth('reshape', libcall('np.frombuffer', buffer=libmeth('tobytes', x, order='C'), dtype=libmeth('newbyteorder', libcall('np.dtype', dt), '<')), shp) == RESHAPED(x, shp)), x='U', dt='U', shp='U')")
+ufunc("LE_FLAG", ["U"], "bool")
+ufunc("RESHAPED", ["U", "U"], "U")
+
+contract(MCO, "CompressedFile.__init__", props=["C01"], params={"compression_type": "U"},
+    modifies=["CompressedFile.compression_type@self"],
+    ensures=["self.compression_type == compression_type", "compression_type != 'ZIP'"],
+    raises={"NotImplementedError": ["compression_type == 'ZIP'"]})
+
+contract(MWF, "ShardWriterFlatBuffer.close", props=["C06", "C01", "C10"], params={},
+    requires=["dstate(self._shard_file) == 0",                        # a fresh file name, nothing written under it yet
+              "implies(len(self._examples) >= 1, self._builder is not None and truthy(self._builder))",
+              "CODEC_KNOWN(self.dataset_structure.compression)"],
+    modifies=["ShardWriterFlatBuffer._builder@self", "CompressedFile.compression_type", "FileObj.path", "FileObj.writing",
+              "FileObj.content", "FileObj.pos", "ghost:fs"],
+    # C06: the shard file exists, complete, iff there is at least one example; nothing else is touched
+    fs_effects=[("self._shard_file", None, "len(self._examples) >= 1")],
+    ensures=[
+        ("C06", "implies(len(self._examples) >= 1, dstate(self._shard_file) == 2)"),
+        ("C06", "implies(len(self._examples) == 0, dstate(self._shard_file) == 0)"),
+    ],
+    at_call={"compress": [("C01", "True")]},
+    raises={},
+    loops={1: Loop(inv=["self._builder is not None", "len(self._examples) >= 1", "dstate(self._shard_file) == 0",
+                        "forall(lambda p: dstate(p) == loop_entry(dstate(p)) and disk_read(p) == loop_entry(disk_read(p)), p='U')"],
+                   frame={"ShardWriterFlatBuffer._builder": [], "ShardWriterFlatBuffer._examples": [], "ShardWriterBase._shard_file": [],
+                          "ShardWriterBase.dataset_structure": [], "DatasetStructure.compression": []})})
